@@ -793,9 +793,12 @@ def any_edit(draw, spec, mutators=True, noops=True, again=None):
 
 
 @st.composite
-def histories(draw, spec, min_steps=1, max_steps=8, undo_prob=0.2, mutators=True, noops=True):
+def histories(draw, spec, min_steps=1, max_steps=8, undo_prob=0.2, mutators=True, noops=True, refusals=0.08):
     """A list of edits, each drawn against the spec the previous ones lead to. Undo steps are explicit
-    inverse edits tagged with ``undo_of``."""
+    inverse edits tagged with ``undo_of``. With probability ``refusals`` a step is an edit built to be refused while
+    the model is being recomputed (tagged ``provoke``): the model then stays as it was, and so does the spec here (the
+    executor decides from what really happens)."""
+    from pbt.props import c15
     hist = []
     cur = spec
     before = []     # spec before each edit
@@ -808,6 +811,12 @@ def histories(draw, spec, min_steps=1, max_steps=8, undo_prob=0.2, mutators=True
                 before.append(cur)
                 cur = E.apply_spec(cur, inv)
                 hist.append(inv)
+                continue
+        if refusals and draw(st.floats(0, 1)) < refusals:
+            e = draw(c15.provoking_edit(cur))
+            if e.get("provoke"):
+                before.append(cur)
+                hist.append(e)
                 continue
         again = sorted({(x["obj"], x["attr"]) for x in hist if x["op"] == "q"})
         e = draw(any_edit(cur, mutators=mutators, noops=noops, again=again))
